@@ -253,8 +253,15 @@ def _same_shape_partners(P, i, s, count, a):
     extra = []
     ops = []
     for k in range(count):
-        mode = (a // (4**k)) % 4
+        mode = (a // (5**k)) % 5
         j = None
+        if mode == 4 and isinstance(t, QBytesTensor) and t.axis is None:
+            # companion whose scale differs from t's by ONE unit in the last place (almost, but not, equal)
+            sc = torch.nextafter(t._scale, torch.full_like(t._scale, float("inf")))
+            x = gen.clamp_finite(_values(list(t.shape), t.dtype, 1700 + s[1 + k], 1.0).to(torch.float64) * float(t._scale.abs().to(torch.float64)) * 40, t.dtype)
+            extra.append(("like-near-equal-scale", quantize_activation(x, t.qtype, sc)))
+            ops.append(("x", len(extra) - 1))
+            continue
         if mode == 3 and isinstance(t, QBytesTensor) and t.axis is None:
             # companion with an EQUAL scale but ANOTHER 8-bit qtype
             oq = Q8[(Q8.index(t.qtype) + 1 + s[1 + k] % 2) % 3] if t.qtype in Q8 else Q8[0]
